@@ -28,9 +28,11 @@ EPS = 1e-6
 ALPHA = ["drop", "now", "intime", "frag2"]
 
 
-def scenario(transport, ka, T, R, script, starts, close_at=None):
+def scenario(transport, ka, T, R, script, starts, close_at=None, cancel=None):
     framing = "rtu" if transport == "udp" else "tcp"
     tasks = [{"start": st, "steps": [["read", 1000 + 100 * i, 2]]} for i, st in enumerate(starts)]
+    if cancel is not None:          # (task index, time): the caller's task is cancelled from outside while it is queued
+        tasks[cancel[0]]["cancel_at"] = cancel[1]
     if close_at is not None:
         tasks.append({"start": close_at, "steps": [["close"]]})
     return {"transport": transport, "framing": framing, "keep_alive": ka, "T": T, "R": R,
@@ -93,7 +95,7 @@ def check_run(sc, run, part: Part):
                 out.append((f"C06/{tr}/foreign-answer",
                             f"caller of register {reg} received the answer tagged (register {got_reg}, transmission "
                             f"#{got_n}); its own transmissions were {sorted(mine)}"))
-        elif rec["outcome"] not in ("RequestFailedException", "RequestRejectedException"):
+        elif rec["outcome"] not in ("RequestFailedException", "RequestRejectedException", "CancelledError"):
             part.count("other_exception_type(handed to C09)")
     # reach: contention
     calls = {c["id"]: c for c in run.calls if c["step"][0] == "read"}
@@ -171,7 +173,12 @@ def run_shard(spec):
                          round(rnd.choice((0.0, 0.1, 0.5, 0.9)) * T, 6)]
                 script.append(s)
             close_at = rnd.choice(OFFSETS) * T if (transport == "tcp" and rnd.random() < 0.3) else None
-            run_case(scenario(transport, rnd.random() < 0.5, T, R, script, starts, close_at), part)
+            # (external cancellation of a caller is outside the property's quantifier and NOT driven here: on the unchanged tree a
+            #  cancelled in-flight caller is treated like a lost answer - the cancellation is swallowed and turned into a retry -
+            #  which by itself lets a queued caller transmit early; C10 has a controlled 'queued caller cancelled' workload)
+            ka = rnd.random() < 0.5
+            cancel = None
+            run_case(scenario(transport, ka, T, R, script, starts, close_at, cancel), part)
     return part
 
 
